@@ -293,6 +293,7 @@ pub struct Check {
     replay_hit: bool,
     regress_failed: Vec<(String, PathBuf)>,
     strict: bool,
+    printed_known: std::cell::RefCell<HashSet<String>>,
 }
 
 const SAMPLE_MAX_BYTES: usize = 1500;
@@ -364,6 +365,7 @@ impl Check {
             replay_hit: false,
             regress_failed: Vec::new(),
             strict,
+            printed_known: std::cell::RefCell::new(HashSet::new()),
         }
     }
 
@@ -594,13 +596,17 @@ impl Check {
                 let o = run_one(&c);
                 match o.verdict {
                     Verdict::Known(id) if id == e.id => {
-                        println!("KNOWN-FINDING: property={} {} {}", self.property, e.id, e.what);
+                        if self.printed_known.borrow_mut().insert(e.id.clone()) {
+                            println!("KNOWN-FINDING: property={} {} {}", self.property, e.id, e.what);
+                        }
                     }
                     Verdict::Pass => {
                         println!("KNOWN-FINDING-STALE: property={} {} witness no longer fails", self.property, e.id);
                     }
                     Verdict::Known(id) => {
-                        println!("KNOWN-FINDING: property={} {} (witness of {})", self.property, id, e.id);
+                        if self.printed_known.borrow_mut().insert(id.clone()) {
+                            println!("KNOWN-FINDING: property={} {} (witness of {})", self.property, id, e.id);
+                        }
                     }
                     Verdict::Inconclusive(_) => {}
                     Verdict::Violation(sig) => {
@@ -695,6 +701,9 @@ impl Check {
     }
 
     pub fn print_known(&self, id: &str) {
+        if !self.printed_known.borrow_mut().insert(id.to_string()) {
+            return;
+        }
         if let Some(e) = self.known.entries.iter().find(|e| e.id == id && e.state == "known") {
             println!("KNOWN-FINDING: property={} {} {}", self.property, e.id, e.what);
         }
